@@ -473,6 +473,12 @@ class HostInterp:
                 return SAFE_BUILTINS[e.id]
             if e.id in ("True", "False", "None"):
                 return {"True": True, "False": False, "None": None}[e.id]
+            from . import orderdom as _od
+
+            pf = _od._package_function(e.id)
+            if pf is not None and not pf.node.decorator_list:
+                # a top-level function of another module of the package (a class's methods run in their own module)
+                return Closure(pf.node, {})
             c = _package_constant(e.id)
             if c is not None:
                 # a module-level constant of the package (a precompiled regexp, a tuple of names, a table)
